@@ -69,3 +69,19 @@ Print Assumptions C14_bracket_literal_partial.
 Theorem C14_bracket_literal_refuted : exists s k v, is_bracketed k = true /\ element_attrs s [AStatic k v] <> Some [(unbracket k, trim v)].
 Proof. exact bracket_literal_refuted. Qed.
 Print Assumptions C14_bracket_literal_refuted.
+
+(* style keys (camelToKebab): a key without capital letters is written as it is; of the capitals only the first
+   letter's survives - every later one becomes a hyphen and its lower-case letter - and nothing else is added *)
+Theorem C14_kebab_lowercase_unchanged : forall s first, no_upper s = true -> camel_to_kebab first s = s.
+Proof. exact kebab_lowercase_unchanged. Qed.
+Print Assumptions C14_kebab_lowercase_unchanged.
+Theorem C14_kebab_only_first_capital_survives : forall c r,
+  camel_to_kebab true (c :: r) = c :: camel_to_kebab false r /\ no_upper (camel_to_kebab false r) = true.
+Proof. exact kebab_only_first_capital_survives. Qed.
+Print Assumptions C14_kebab_only_first_capital_survives.
+Theorem C14_kebab_length : forall s first,
+  length (camel_to_kebab first s) = length s + count_upper s - (if first then match s with c :: _ => if is_upper c then 1 else 0 | [] => 0 end else 0).
+Proof. exact kebab_length. Qed.
+Print Assumptions C14_kebab_length.
+Example C14_kebab_example : camel_to_kebab true (bs "fontSize") = bs "font-size" /\ camel_to_kebab true (bs "WebkitBoxFlex") = bs "Webkit-box-flex".
+Proof. vm_compute. auto. Qed.
